@@ -347,4 +347,43 @@ def checkNoExc (params lines : List String) : CaseResult := Id.run do
     r := { r with specs := s!"normal_flow_twice: the task behind the host was requested {nReq} times for one activation of the host" :: r.specs }
   return { r with nontrivial := delivered > 0 }
 
+/-- family c10two: two tokens waiting in one host activity (non-interrupting boundary event), one matching event while both
+wait. The plain statement: the exception flow continues for that event (X requested, once, before any answer of the host), the
+normal flow is taken once per answer (N twice), never before an answer. -/
+def checkTwo (_params lines : List String) : CaseResult := Id.run do
+  let mut r : CaseResult := {}
+  let mut waiting := 0
+  let mut delivered := false
+  let mut answered := 0
+  let mut xBefore := 0
+  let mut nReq := 0
+  let mut nEarly := 0
+  for ln in lines do
+    match words ln with
+    | ["c10two", "waiting", k] => waiting := k.toNat?.getD 0
+    | ["c10two", "delivered"] => delivered := true
+    | ["obs", "task", node, _, _] =>
+      if node == "X" && answered == 0 then xBefore := xBefore + 1
+      if node == "N" then
+        nReq := nReq + 1
+        if answered == 0 then nEarly := nEarly + 1
+    | "op" :: "answer" :: node :: _ => if node == "H" then answered := answered + 1
+    | ["obs", "ret", "deliver", name, res] =>
+      if res != "returned" then
+        r := { r with specs := s!"event_delivery_blocked: delivery of {name} did not return within its deadline" :: r.specs }
+    | "obs" :: "panic" :: rest => r := { r with specs := ("panic: " ++ " ".intercalate rest) :: r.specs }
+    | ["obs", "noquiesce"] => r := { r with specs := "no_quiescence: the engine kept running (busy loop)" :: r.specs }
+    | "harness-error" :: rest => r := { r with bad := ("harness-error " ++ " ".intercalate rest) :: r.bad }
+    | _ => pure ()
+  if waiting != 2 then return { r with bad := s!"c10two: {waiting} tokens waiting in the host, 2 expected" :: r.bad }
+  if delivered && xBefore == 0 then
+    r := { r with specs := "exception_flow_missing: two tokens were waiting in the host when its boundary event's signal was delivered, the exception flow did not continue" :: r.specs }
+  if xBefore > 1 then
+    r := { r with specs := s!"exception_flow_twice: one event, the exception flow continued {xBefore} times" :: r.specs }
+  if nEarly > 0 then
+    r := { r with specs := s!"normal_flow_without_answer: the task behind the host was requested {nEarly} time(s) before any answer of the host" :: r.specs }
+  if answered == 2 && nReq != 2 then
+    r := { r with specs := s!"normal_flow_count: the host was answered twice, the task behind it was requested {nReq} time(s)" :: r.specs }
+  return { r with nontrivial := delivered }
+
 end Bpmn.Driver.C10
